@@ -265,8 +265,162 @@ pub fn exec(func: &str, a: &mut Args) -> String {
         // the free function through the real dispatcher: he1 pos1 he2 pos2
         "q_it_cc" => { let h1 = d3::v(a); let p1 = d3::iso(a); let h2 = d3::v(a); let p2 = d3::iso(a);
             res(query::intersection_test(&p1, &Cuboid::new(h1), &p2, &Cuboid::new(h2)), |x| b(*x).to_string()) }
+        // ---- follow-up 3: swapped composite-shape wrappers against the tabulated canonical sibling (ignored trailing args):
+        //      s1 compound pos12 [param] pinv canon
+        "w_cp_sc" => { let s1 = sh(a); let c = compound_of(&sh(a)); let m = d3::iso(a); let p = a.f();
+            nopanic(|| fcp(&details::closest_points_shape_composite_shape(&DefaultQueryDispatcher, &m, &*dynsh(&s1), &c, p))) }
+        "w_contact_sc" => { let s1 = sh(a); let c = compound_of(&sh(a)); let m = d3::iso(a); let p = a.f();
+            fcontact(&details::contact_shape_composite_shape(&DefaultQueryDispatcher, &m, &*dynsh(&s1), &c, p)) }
+        "w_distance_sc" => { let s1 = sh(a); let c = compound_of(&sh(a)); let m = d3::iso(a);
+            ff(details::distance_shape_composite_shape(&DefaultQueryDispatcher, &m, &*dynsh(&s1), &c)) }
+        "w_it_sc" => { let s1 = sh(a); let c = compound_of(&sh(a)); let m = d3::iso(a);
+            b(details::intersection_test_shape_composite_shape(&DefaultQueryDispatcher, &m, &*dynsh(&s1), &c)).into() }
+        // s1 compound pos12 vel12 target stop maxtoi pinv vinv canon
+        "w_cast_sc" => { let s1 = sh(a); let c = compound_of(&sh(a)); let m = d3::iso(a); let v = d3::v(a);
+            let opts = cast_opts(a.f(), a.b(), a.f());
+            fhit_opt(&details::cast_shapes_shape_composite_shape(&DefaultQueryDispatcher, &m, &v, &*dynsh(&s1), &c, opts)) }
+        // s1(ball|cuboid) halfspace pos12 vel12 target stop maxtoi pinv vinv canon
+        "w_cast_sh" => { let s1 = sh(a); let s2 = sh(a); let m = d3::iso(a); let v = d3::v(a);
+            let opts = cast_opts(a.f(), a.b(), a.f());
+            let n = match &s2 { Sh::HalfSpace(n) => *n, _ => panic!("halfspace expected") };
+            let g1 = dynsh(&s1);
+            fhit_opt(&details::cast_shapes_support_map_halfspace(&m, &v, g1.as_support_map().expect("support map"), &hs(&n), opts)) }
+        // s1 motion1 compound motion2 start end stop canon
+        "w_castnl_sc" => { let s1 = sh(a); let m1 = motion_in(a); let c = compound_of(&sh(a)); let m2 = motion_in(a);
+            let t0 = a.f(); let t1 = a.f(); let stop = a.b();
+            fhit_opt(&details::cast_shapes_nonlinear_shape_composite_shape(&DefaultQueryDispatcher, &m1, &*dynsh(&s1), &m2, &c, t0, t1, stop)) }
+        // ---- NonlinearRigidMotion frame helpers
+        "nrm_append_translation" => { let m = motion_in(a); let t = d3::v(a); fmotion(&m.append_translation(t)) }
+        "nrm_prepend_translation" => { let m = motion_in(a); let t = d3::v(a); fmotion(&m.prepend_translation(t)) }
+        "nrm_append" => { let m = motion_in(a); let g = d3::iso(a); fmotion(&m.append(g)) }
+        "nrm_prepend" => { let m = motion_in(a); let g = d3::iso(a); fmotion(&m.prepend(g)) }
+        "nrm_position_at" => { let m = motion_in(a); let t = a.f(); d3::fiso(&m.position_at_time(t)) }
         f if f.contains("2_") => two::exec(f, a),
         _ => "nofn".into(),
+    }
+}
+
+// ------------------------------------------------------------------ follow-up 3 helpers
+use crate::p3::query::NonlinearRigidMotion;
+pub fn compound_of(s: &Sh) -> Compound {
+    match s { Sh::Compound(ps) => Compound::new(ps.iter().map(|(m, s)| (*m, SharedShape(std::sync::Arc::from(dynsh(s))))).collect()),
+              _ => panic!("compound expected") }
+}
+fn cast_opts(target: f64, stop: bool, maxtoi: f64) -> ShapeCastOptions {
+    ShapeCastOptions { max_time_of_impact: maxtoi, target_distance: target, stop_at_penetration: stop, compute_impact_geometry_on_penetration: true }
+}
+fn fhit_opt(h: &Option<ShapeCastHit>) -> String { match h { None => "none".into(), Some(h) => format!("hit {}", fhit(h)) } }
+fn hhit_opt(h: &Option<ShapeCastHit>) -> String {
+    match h { None => "none".into(), Some(h) => format!("hit {} {} {} {} {} {}", hx(h.time_of_impact), d3::hp(&h.witness1), d3::hp(&h.witness2),
+        d3::hv(&h.normal1), d3::hv(&h.normal2), h.status as u8) }
+}
+fn motion_in(a: &mut Args) -> NonlinearRigidMotion { let s = d3::iso(a); let c = d3::p(a); let l = d3::v(a); let w = d3::v(a); NonlinearRigidMotion::new(s, c, l, w) }
+fn hmotion(m: &NonlinearRigidMotion) -> String { format!("{} {} {} {}", d3::hiso(&m.start), d3::hp(&m.local_center), d3::hv(&m.linvel), d3::hv(&m.angvel)) }
+fn fmotion(m: &NonlinearRigidMotion) -> String { format!("{} {} {} {}", d3::fiso(&m.start), d3::fp(&m.local_center), d3::fv(&m.linvel), d3::fv(&m.angvel)) }
+fn hcp(c: &ClosestPoints) -> String {
+    match c { ClosestPoints::Intersecting => "intersecting".into(), ClosestPoints::Disjoint => "disjoint".into(),
+              ClosestPoints::WithinMargin(x, y) => format!("within {} {}", d3::hp(x), d3::hp(y)) }
+}
+/// a Compound of `n` closed-form parts (balls only when `balls_only`), spread around the origin, each with its own rotation
+pub fn gen_closed_compound(r: &mut Rng, lat: bool, n: usize, balls_only: bool) -> Sh {
+    Sh::Compound((0..n).map(|_| {
+        let s = if balls_only || r.bool() { Sh::Ball(if lat { *r.pick(&[0.25, 0.5, 1.0]) } else { r.uniform(0.1, 1.5) }) }
+                else { Sh::Cuboid(if lat { Vector::new(*r.pick(&[0.25, 0.5, 1.0]), *r.pick(&[0.5, 1.0]), *r.pick(&[0.25, 0.75])) } else { Vector::new(r.uniform(0.1, 1.5), r.uniform(0.1, 1.5), r.uniform(0.1, 1.5)) }) };
+        let t = if lat { Vector::new(quarter(r, 12), quarter(r, 12), quarter(r, 12)) } else { Vector::new(r.uniform(-3.0, 3.0), r.uniform(-3.0, 3.0), r.uniform(-3.0, 3.0)) };
+        let q = if lat { exact_quat(r) } else { d3::gen_quat(r, false) };
+        (iso_of(q, t), s)
+    }).collect())
+}
+/// follow-up 3 generator: swapped wrappers (composite arms, shape casts, non-linear casts) and NonlinearRigidMotion helpers
+pub fn gen_wrap(r: &mut Rng, it: usize, v: &mut Vec<(String, String)>, cov: &mut std::collections::BTreeMap<(String, String, String), usize>) {
+    let lat = it % 2 == 0;
+    let kind = |s: &Sh| -> String { hsh(s).split_whitespace().next().unwrap().to_string() };
+    // ---- the four scalar / witness queries
+    for _ in 0..2 {
+        let s1 = match r.below(3) { 0 => Sh::Ball(if lat { *r.pick(&[0.25, 0.5, 1.0, 2.0]) } else { r.uniform(0.1, 2.0) }),
+                                    1 => Sh::HalfSpace(gen_normal(r, lat)), _ => Sh::Cuboid(d3::gen_he(r, lat).map(|x| x.min(3.0))) };
+        let n = 3 + r.below(5) as usize;     // 3..7 parts
+        let comp = gen_closed_compound(r, lat, n, matches!(s1, Sh::Cuboid(_)));
+        // pose of the compound in the frame of shape 1: non-trivial rotation, distance from overlapping to well separated
+        let q = if lat { exact_quat(r) } else { d3::gen_quat(r, false) };
+        let dir = gen_normal(r, lat);
+        let dist = if lat { quarter(r, 40).abs() } else { r.uniform(0.0, 9.0) };
+        let pos12 = iso_of(q, dir * dist);
+        let pinv = pos12.inverse();
+        let par = gen_param(r, lat);
+        let (g1, c) = (dynsh(&s1), compound_of(&comp));
+        let base = format!("{} {} {}", hsh(&s1), hsh(&comp), d3::hiso(&pos12));
+        let d = &DefaultQueryDispatcher;
+        let ccp = std::panic::catch_unwind(std::panic::AssertUnwindSafe(|| details::closest_points_composite_shape_shape(d, &pinv, &c, &*g1, par)));
+        if let Ok(ccp) = ccp { v.push(("w_cp_sc".into(), format!("{} {} {} {}", base, hx(par), d3::hiso(&pinv), hcp(&ccp)))); }
+        let cc = details::contact_composite_shape_shape(d, &pinv, &c, &*g1, par);
+        v.push(("w_contact_sc".into(), format!("{} {} {} {}", base, hx(par), d3::hiso(&pinv), hcontact_opt(&cc))));
+        let cd = details::distance_composite_shape_shape(d, &pinv, &c, &*g1);
+        v.push(("w_distance_sc".into(), format!("{} {} {}", base, d3::hiso(&pinv), hx(cd))));
+        let ci = details::intersection_test_composite_shape_shape(d, &pinv, &c, &*g1);
+        v.push(("w_it_sc".into(), format!("{} {} {}", base, d3::hiso(&pinv), b(ci))));
+        for f in ["closest_points", "contact", "distance", "intersection_test"] { *cov.entry((kind(&s1), "compound".into(), f.into())).or_insert(0) += 1; }
+        // ---- shape cast through the swapped composite wrapper: relative velocity mostly towards shape 1
+        let mut vel = -dir * if lat { *r.pick(&[0.5, 1.0, 2.0]) } else { r.logu(0.05, 20.0) } + d3::gen_v(r, lat, 0.3);
+        if r.below(8) == 0 { vel = Vector::zeros(); }
+        let target = if r.below(3) == 0 { if lat { 0.25 } else { r.uniform(0.01, 0.5) } } else { 0.0 };
+        let stop = r.bool(); let maxtoi = if r.below(4) == 0 { f64::MAX } else if lat { *r.pick(&[2.0, 8.0, 32.0]) } else { r.logu(0.1, 100.0) };
+        let opts = cast_opts(target, stop, maxtoi);
+        let vinv = -pos12.inverse_transform_vector(&vel);
+        let ch = details::cast_shapes_composite_shape_shape(d, &pinv, &vinv, &c, &*g1, opts);
+        v.push(("w_cast_sc".into(), format!("{} {} {} {} {} {} {} {}", base, d3::hv(&vel), hx(target), b(stop), hx(maxtoi), d3::hiso(&pinv), d3::hv(&vinv), hhit_opt(&ch))));
+        *cov.entry((kind(&s1), "compound".into(), "cast_shapes".into())).or_insert(0) += 1;
+    }
+    // ---- cast_shapes_support_map_halfspace
+    {
+        let s1 = if r.bool() { Sh::Ball(if lat { *r.pick(&[0.25, 0.5, 1.0, 2.0]) } else { r.uniform(0.1, 2.0) }) } else { Sh::Cuboid(d3::gen_he(r, lat).map(|x| x.min(3.0))) };
+        let n = gen_normal(r, lat); let s2 = Sh::HalfSpace(n);
+        let q = if lat { exact_quat(r) } else { d3::gen_quat(r, false) };
+        let dir = gen_normal(r, lat);
+        let pos12 = iso_of(q, dir * if lat { quarter(r, 40).abs() } else { r.uniform(0.0, 9.0) });
+        let pinv = pos12.inverse();
+        let mut vel = d3::gen_v(r, lat, 2.0); if r.below(8) == 0 { vel = Vector::zeros(); }
+        let target = if r.below(3) == 0 { if lat { 0.25 } else { r.uniform(0.01, 0.5) } } else { 0.0 };
+        let stop = r.bool(); let maxtoi = if r.below(4) == 0 { f64::MAX } else if lat { *r.pick(&[2.0, 8.0, 32.0]) } else { r.logu(0.1, 100.0) };
+        let vinv = -pos12.inverse_transform_vector(&vel);
+        let g1 = dynsh(&s1);
+        let ch = details::cast_shapes_halfspace_support_map(&pinv, &vinv, &hs(&n), g1.as_support_map().unwrap(), cast_opts(target, stop, maxtoi));
+        v.push(("w_cast_sh".into(), format!("{} {} {} {} {} {} {} {} {} {}", hsh(&s1), hsh(&s2), d3::hiso(&pos12), d3::hv(&vel), hx(target), b(stop), hx(maxtoi),
+            d3::hiso(&pinv), d3::hv(&vinv), hhit_opt(&ch))));
+        *cov.entry((kind(&s1), "halfspace".into(), "cast_shapes".into())).or_insert(0) += 1;
+    }
+    // ---- non-linear cast through the swapped composite wrapper (every other case without angular velocity: exact oracle)
+    if it % 3 == 0 {
+        let s1 = if r.bool() { Sh::Ball(if lat { *r.pick(&[0.5, 1.0]) } else { r.uniform(0.2, 1.5) }) } else { Sh::Cuboid(Vector::new(0.5, 1.0, 0.75)) };
+        let np = 3 + r.below(3) as usize;
+        let comp = gen_closed_compound(r, lat, np, true);
+        let rotating = it % 6 == 0;
+        let mk = |r: &mut Rng, t: Vector<Real>, lin: Vector<Real>| {
+            let q = if lat { exact_quat(r) } else { d3::gen_quat(r, false) };
+            NonlinearRigidMotion::new(iso_of(q, t), d3::gen_p(r, lat, 1.0), lin, if rotating { d3::gen_v(r, lat, 1.0) } else { Vector::zeros() })
+        };
+        let dir = gen_normal(r, lat); let dist = if lat { 6.0 } else { r.uniform(3.0, 9.0) };
+        let m1 = mk(r, Vector::zeros(), dir * 0.5);
+        let sp2 = if lat { 1.0 } else { r.uniform(0.2, 2.0) };
+        let m2 = mk(r, dir * dist, -dir * sp2);
+        let (t0, t1) = (0.0, if lat { 8.0 } else { r.uniform(1.0, 12.0) }); let stop = r.bool();
+        let (g1, c) = (dynsh(&s1), compound_of(&comp));
+        let ch = details::cast_shapes_nonlinear_composite_shape_shape(&DefaultQueryDispatcher, &m2, &c, &m1, &*g1, t0, t1, stop);
+        v.push(("w_castnl_sc".into(), format!("{} {} {} {} {} {} {} {}", hsh(&s1), hmotion(&m1), hsh(&comp), hmotion(&m2), hx(t0), hx(t1), b(stop), hhit_opt(&ch))));
+        *cov.entry((kind(&s1), "compound".into(), "cast_shapes_nonlinear".into())).or_insert(0) += 1;
+    }
+    // ---- NonlinearRigidMotion helpers
+    {
+        let m = NonlinearRigidMotion::new(d3::gen_iso(r, lat, 50.0), d3::gen_p(r, lat, 5.0), d3::gen_v(r, lat, 5.0), d3::gen_v(r, lat, 3.0));
+        let tra = d3::gen_v(r, lat, 20.0); let g = d3::gen_iso(r, lat, 50.0);
+        v.push(("nrm_append_translation".into(), format!("{} {}", hmotion(&m), d3::hv(&tra))));
+        v.push(("nrm_prepend_translation".into(), format!("{} {}", hmotion(&m), d3::hv(&tra))));
+        v.push(("nrm_append".into(), format!("{} {}", hmotion(&m), d3::hiso(&g))));
+        v.push(("nrm_prepend".into(), format!("{} {}", hmotion(&m), d3::hiso(&g))));
+        let t = if lat { *r.pick(&[0.0, 0.25, 1.0, 2.0]) } else { r.uniform(0.0, 5.0) };
+        let mm = if r.below(4) == 0 { NonlinearRigidMotion::new(m.start, m.local_center, m.linvel, Vector::zeros()) } else { m };
+        let e = Isometry::new(mm.linvel * t, mm.angvel * t);
+        v.push(("nrm_position_at".into(), format!("{} {} {}", hmotion(&mm), hx(t), d3::hiso(&e))));
     }
 }
 
@@ -764,6 +918,10 @@ pub fn gen(r: &mut Rng, thorough: bool) -> Vec<(String, String)> {
         v.push(("q_it".into(), sw.clone()));
         v.push(("q_cp".into(), format!("{} {}", sw, hx(par))));
     }
+    // ---- follow-up 3 (appended last): swapped composite / cast / non-linear wrappers, NonlinearRigidMotion helpers
+    let mut cov: std::collections::BTreeMap<(String, String, String), usize> = Default::default();
+    for it in 0..n { gen_wrap(r, it, &mut v, &mut cov); }
+    if std::env::var("VERIF_DBG").is_ok() { for ((k1, k2, f), c) in &cov { eprintln!("C03 wrap coverage: {} / {} {} = {}", k1, k2, f, c); } }
     v
 }
 
